@@ -27,7 +27,7 @@ pub const KINDS: [&str; 8] = [
     // a context function that is the TARGET of a compound assignment (`f += 1` evaluates f first)
     "ctx_function_compound_target",
 ];
-pub const ACTIONS: [&str; 13] = [
+pub const ACTIONS: [&str; 16] = [
     "parse_expression",
     "execute_new_context",
     "register_function",
@@ -44,6 +44,11 @@ pub const ACTIONS: [&str; 13] = [
     "delegate_to_nested_evaluation",
     // ... or the very Err the nested evaluation produced (an unknown function), which must fail the outer one
     "delegate_to_failing_nested_evaluation",
+    // hot reload: the handler REPLACES an operator that the outer program applied before the handler ran
+    // and applies again after it, within the same evaluation (`[1 ro 2, <handler>, 1 ro 2]`)
+    "replace_prefix_op_in_use",
+    "replace_infix_op_in_use",
+    "replace_postfix_op_in_use",
 ];
 pub const POSITIONS: [&str; 9] = [
     "root",
@@ -155,6 +160,18 @@ fn action(case: &mut Case, a: usize, target: Option<&str>) -> (Vec<Op>, Option<E
             None,
             Ret::Delegate(Prog::Stmts(vec![bin("=", rf("q"), lit_i(1)), call("function_that_exists_nowhere", vec![rf("q")])]), CtxSpec::empty()),
         ),
+        13 => {
+            let h = marker(case, HKind::Prefix);
+            (vec![Op::RegPre { name: "ro".into(), h }], None, Ret::Const(Val::int(7)))
+        }
+        14 => {
+            let h = marker(case, HKind::Infix);
+            (vec![Op::RegIn { name: "ro".into(), prec: 115, setter: false, right: false, h }], None, Ret::Const(Val::int(7)))
+        }
+        15 => {
+            let h = marker(case, HKind::Postfix);
+            (vec![Op::RegPost { name: "ro".into(), h }], None, Ret::Const(Val::int(7)))
+        }
         _ => (
             vec![
                 Op::Exec { prog: Prog::one(call("max", vec![lit_i(7), lit_i(8), bin("+", lit_b(true), lit_i(1))])), ctx: fresh() },
@@ -230,6 +247,12 @@ fn at_position(p: usize, node: Expr) -> Expr {
 pub fn matrix_case(k: usize, a: usize, p: usize) -> Case {
     let mut case = Case::new(&format!("matrix:{}:{}:{}", KINDS[k], ACTIONS[a], POSITIONS[p]));
     case.slots.push(CtxSpec { vars: vec![("x".into(), Val::int(1))], funcs: vec![] });
+    // the evaluating context binds its own `min` / `max`: evaluations a handler starts on OTHER contexts
+    // must still reach the global functions of those names
+    for decoy in ["min", "max"] {
+        let d = marker(&mut case, HKind::CtxFunc);
+        case.slots[0].funcs.push((decoy.into(), d));
+    }
     let (ops, later, ret) = action(&mut case, a, if p == 6 { Some("t") } else { None });
     // a DumpSlot / constant return for the kinds whose value is used arithmetically
     let ret = if k == 7 && matches!(ret, Ret::DumpSlot(_)) { Ret::Const(Val::int(7)) } else { ret };
@@ -246,7 +269,28 @@ pub fn matrix_case(k: usize, a: usize, p: usize) -> Case {
         case.pre.push(Op::RegFn { name: "nf".into(), h: old });
     }
     let node = invoking_node(&mut case, k, h, "hh");
-    let mut stmts = if p == 6 {
+    // the operator the handler replaces is registered before the evaluation and applied around the handler
+    let in_use = match a {
+        13 => {
+            let old = marker(&mut case, HKind::Prefix);
+            case.pre.insert(0, Op::RegPre { name: "ro".into(), h: old });
+            Some(un("ro", lit_i(2)))
+        }
+        14 => {
+            let old = marker(&mut case, HKind::Infix);
+            case.pre.insert(0, Op::RegIn { name: "ro".into(), prec: 115, setter: false, right: false, h: old });
+            Some(bin("ro", lit_i(1), lit_i(2)))
+        }
+        15 => {
+            let old = marker(&mut case, HKind::Postfix);
+            case.pre.insert(0, Op::RegPost { name: "ro".into(), h: old });
+            Some(post(lit_i(2), "ro"))
+        }
+        _ => None,
+    };
+    let mut stmts = if let Some(u) = in_use {
+        vec![bin("=", rf("y"), lit_i(5)), bin("=", rf("r"), Expr::List(vec![u.clone(), at_position(p, node), u]))]
+    } else if p == 6 {
         vec![bin("=", rf("y"), lit_i(5)), bin("=", rf("t"), lit_i(10)), bin("+=", rf("t"), node), bin("=", rf("r"), rf("t"))]
     } else {
         vec![bin("=", rf("y"), lit_i(5)), bin("=", rf("r"), at_position(p, node))]
@@ -262,6 +306,9 @@ pub fn matrix_case(k: usize, a: usize, p: usize) -> Case {
         3 => Some(un("npw", lit_i(3))),
         4 => Some(bin("niw", lit_i(3), lit_i(4))),
         5 => Some(post(lit_i(3), "nqw")),
+        13 => Some(un("ro", lit_i(3))),
+        14 => Some(bin("ro", lit_i(3), lit_i(4))),
+        15 => Some(post(lit_i(3), "ro")),
         _ => None,
     };
     if let Some(e) = later_use {
@@ -324,6 +371,9 @@ fn nested_case(r: &mut Prng, big: bool) -> Case {
     let depth = 2 + r.usize(if big { 6 } else { 3 });
     // build from the innermost handler outwards
     let mut inner_prog: Option<(Expr, Vec<(String, usize)>)> = None; // program + ctx functions it needs
+    // global function names called at deeper levels that the OUTERMOST context binds as well (never
+    // reached from there: handler-started evaluations on other contexts must not inherit them)
+    let mut decoys: Vec<String> = vec![];
     for level in (0..depth).rev() {
         let k = r.usize(6);
         // context functions of different levels live in different contexts: they may share one identifier
@@ -361,6 +411,9 @@ fn nested_case(r: &mut Prng, big: bool) -> Case {
         let node = match k {
             0 => {
                 case.pre.push(Op::RegFn { name: name.clone(), h });
+                if level >= 1 && r.chance(1, 2) {
+                    decoys.push(name.clone());
+                }
                 call(&name, vec![rf("v")])
             }
             1 => {
@@ -389,6 +442,10 @@ fn nested_case(r: &mut Prng, big: bool) -> Case {
     }
     let (prog, funcs) = inner_prog.unwrap();
     case.slots[0].funcs.extend(funcs);
+    for d in decoys {
+        let h = marker(&mut case, HKind::CtxFunc);
+        case.slots[0].funcs.push((d, h));
+    }
     case.slots[0].vars.push(("v".into(), Val::int(100)));
     let eval = Op::Exec { prog: Prog::Stmts(vec![bin("=", rf("r"), prog), rf("r")]), ctx: CtxRef::Slot(0) };
     if r.chance(1, 3) {
@@ -437,7 +494,7 @@ impl Prop for C14 {
             rule: "exhaustive part: every existing cell of handler kind {global function, prefix, infix, postfix, context function by call, context function by \
                    bare name, user-registered SETTER operator, context function as the target of a compound assignment} x re-entrant action {parse_expression, execute on a new context, register_function/prefix/infix/postfix, and for context \
                    functions: lock the evaluating context's handle and read / write it / evaluate on a Context sharing it / dump it} x program position {root, \
-                   nested operand, then-branch, else-branch, and for register_function: as an argument of the very function it registers / replaces} = 464 cases, all run on every invocation; sampled part: seeded chains of 2..4 re-entrant \
+                   nested operand, then-branch, else-branch, and for register_function: as an argument of the very function it registers / replaces} = 560 cases, all run on every invocation; sampled part: seeded chains of 2..4 re-entrant \
                    handlers each evaluating a program that invokes the next, in a third of them with a bystander thread that registers and evaluates concurrently \
                    (seeded schedules). Fresh simulated process per case. evaluations = simulated \
                    executions; distinct_nontrivial = distinct cases in which at least one re-entrant action was actually performed inside a handler",
